@@ -304,5 +304,6 @@ def main(chk):
         chk.sample({"program": progs[i], "impl": {k: res[i]["impl"].get(k) for k in ("kind", "repr", "errk", "out")},
                     "model_verdict": res[i]["verdict"]})
     chk.cov["rule"] += " Added after seeded round 5: keyword parameters / keyword variables with private names, a closure with a free `self` installed on another object, list chains whose property call has 1..8 arguments in the four list contexts."
+    chk.cov["rule"] += " Added after seeded round 6: `new` on a started iterator binds only the new one, names with equal 32-bit hashes, a keyword never fills a positional parameter."
     return pancore.conclude(chk, ok, broken, "Props/C03.v", res, viol, model_only, "C03",
                             "Core.Interp vs evaluator/{eval_funccall,eval_func,eval_assign,eval_ident,eval_args,eval_kwargs}.go, object/env.go")
